@@ -77,6 +77,7 @@ struct Exec {
     Fnv beh;       // behaviour signature
     long disposal = 0;
     bool null_ts = false;
+    bool any_cb_failure = false;   // some scripted callback of this run returned STOP / ERROR
     size_t cfg_snapshot_hash = 0;
     int cap_body = 1 << 22;
 };
@@ -298,8 +299,8 @@ static int apply_action(Exec *ex, int hook, int action, htp_tx_t *tx, TxRec *r) 
     if ((action == CB_STOP || action == CB_ERROR) && tx && tx->request_method_number == HTP_M_CONNECT) ex->res->probes["cbfault.in_connect_exchange"]++;
     switch (action) {
         case CB_DECLINED: return HTP_DECLINED;
-        case CB_STOP: if (r && HOOKS[hook].side < 2) r->cb_nonok[HOOKS[hook].side] = true; return HTP_STOP;
-        case CB_ERROR: if (r && HOOKS[hook].side < 2) r->cb_nonok[HOOKS[hook].side] = true; return HTP_ERROR;
+        case CB_STOP: if (r && HOOKS[hook].side < 2) r->cb_nonok[HOOKS[hook].side] = true; if (r) r->cb_nonok_any = true; ex->any_cb_failure = true; return HTP_STOP;
+        case CB_ERROR: if (r && HOOKS[hook].side < 2) r->cb_nonok[HOOKS[hook].side] = true; if (r) r->cb_nonok_any = true; ex->any_cb_failure = true; return HTP_ERROR;
         case CB_REG_TX_HOOKS: {
             extern int cb_tx_req_body(htp_tx_data_t *); extern int cb_tx_res_body(htp_tx_data_t *);
             if (tx) { htp_tx_register_request_body_data(tx, cb_tx_req_body); htp_tx_register_response_body_data(tx, cb_tx_res_body); }
@@ -434,6 +435,7 @@ static int tx_cb(int hook, htp_tx_t *tx) {
         take_dump(ex, tx, *r, true);
         ex->res->st.tx_completed++;
         ex->res->live_after_tx.push_back(g_seams.live_bytes);
+        if (getenv("VERIF_LIVE_HIST")) { long k = atol(getenv("VERIF_LIVE_HIST")); if ((long) ex->res->live_after_tx.size() == k || (long) ex->res->live_after_tx.size() == 4 * k) printf("LIVEHIST tx=%zu%s\n", ex->res->live_after_tx.size(), seams_live_histogram().c_str()); }
         ex->res->allocs_at_tx.push_back(g_seams.n_total);
     }
     if (hook == HK_REQUEST_COMPLETE && r) c07_request_bound(ex, tx);
@@ -877,6 +879,13 @@ static void final_dumps(Exec *ex, ConnState &c) {
         if (!t) continue;
         TxRec &r = rec_for(ex, t);
         if (!r.dump_at_complete) take_dump(ex, t, r, false);
+        // completion happens once - not never: a transaction whose REQUEST_COMPLETE and RESPONSE_COMPLETE were both delivered has had
+        // its TRANSACTION_COMPLETE by the time the parser is destroyed (bounded liveness; runs in which a scripted callback returned
+        // STOP / ERROR are exempt: stopping a stream legitimately leaves transactions unfinished)
+        if (r.n_complete[0] == 1 && r.n_complete[1] == 1 && r.n_complete[2] == 0) {
+            if (ex->any_cb_failure) ex->res->probes["c05.both_complete_no_tx_complete.after_cb_failure"]++;
+            else violate(ex, "C05", "C05.transaction_complete_never_delivered", strfmt("tx#%d seq=%s", r.ordinal, r.cbseq_full.c_str()));
+        }
     }
 }
 
